@@ -515,3 +515,45 @@ func fixedResp(fc uint8, seed uint64) spec.Resp {
 	}
 	return r
 }
+
+// TestLongFrames: "every byte string (all lengths)": frames around and beyond 64 KiB (an FC17-shaped response, the one layout whose parser
+// accepts any length, a register-response-shaped and a request-shaped body), with the correct trailer, the byte-swapped trailer, a
+// one-bit error and - for the wrapped positions - the CRC of the first (len-2) mod 65536 bytes placed at that position.
+func TestLongFrames(t *testing.T) {
+	idx := 0
+	for _, n := range []int{255, 256, 257, 4096, 65533, 65534, 65535, 65536, 65537, 65538, 65539, 65540, 65544, 70000, 131074} {
+		for shape := 0; shape < 3; shape++ {
+			idx++
+			if !harness.Mine(idx) {
+				continue
+			}
+			body := harness.Bytes(uint64(n)*31+uint64(shape)+harness.Seed(), n)
+			req := false
+			switch shape {
+			case 0: // read server id response: unit, 0x11, id length, id ..., status, additional data ...
+				body[0], body[1], body[2] = 1, 0x11, 5
+			case 1:
+				body[0], body[1], body[2] = 1, 0x03, byte(n-3)
+			default:
+				body[0], body[1] = 1, 0x10
+				req = true
+			}
+			ref := spec.RefCRC16(body)
+			trailers := []uint16{ref, ref<<8 | ref>>8, ref ^ 0x0100, ref ^ 1}
+			for _, tr := range trailers {
+				if !chkEnforce.Eval(t, enforceCase{Request: req, Body: body, Trailer: tr, Source: "long"}) {
+					return
+				}
+			}
+			if k := n % 65536; n > 65536 && k+2 <= n {
+				// a frame whose bytes at the wrapped position look like a trailer for the prefix before them, while the real trailer is wrong
+				b2 := append([]byte(nil), body...)
+				c := spec.RefCRC16(b2[:k])
+				b2[k], b2[k+1] = byte(c), byte(c>>8)
+				if !chkEnforce.Eval(t, enforceCase{Request: req, Body: b2, Trailer: spec.RefCRC16(b2) ^ 0x0001, Source: "long-wrapped"}) {
+					return
+				}
+			}
+		}
+	}
+}
